@@ -96,3 +96,9 @@ Print Assumptions C02_hash_verify_is_FIPS204_HashVerify.
 Print Assumptions C02_internal_verify_is_FIPS204_Verify_internal.
 Print Assumptions C02_rejections.
 Print Assumptions C02_long_ctx_rejected.
+(* T6: no conditional compilation inside the algorithm files (the hooks build runs the code users run) *)
+Require F204.Proofs.SourcePins.
+Check F204.Proofs.SourcePins.algorithm_files_have_no_cfg_gates.
+(* T2: the XOF plumbing and the samplers of hashing.rs have the structure the model mirrors *)
+Require F204.Proofs.SourcePins.
+Check F204.Proofs.SourcePins.hashing_skeleton_pinned.
